@@ -248,8 +248,7 @@ func (f changeFinder) walkSlice(from, to *value) bool {
 		return equal
 	}
 
-	compare, _ := compareChildren(from, to)
-	es := diff.Difference(from.Len(), to.Len(), compare)
+	es := diff.Difference(from.Len(), to.Len(), compareChildren(from, to))
 
 	regions := make([]Region, from.Len())
 	for i, n := range from.Children {
@@ -322,27 +321,26 @@ func (f changeFinder) walkSlice(from, to *value) bool {
 type nodeComparer struct{ diff.Result }
 
 // compareChildren returns a function that compares the i-th child of from
-// with the j-th child of to, and the table in which it records the results.
+// with the j-th child of to and remembers the result.
 //
 // diff.Difference may ask about the same pair more than once. Comparing two
 // subtrees is itself recursive, so without remembering the answers the cost
 // doubles with every level of nesting and a small but deeply nested file takes
-// forever.
-func compareChildren(from, to *value) (diff.EqualFunc, [][]diff.Result) {
-	results := make([][]diff.Result, from.Len())
-	done := make([][]bool, from.Len())
-	for i := range results {
-		results[i] = make([]diff.Result, to.Len())
-		done[i] = make([]bool, to.Len())
-	}
+// forever. Only the pairs that are actually asked about are stored: a table of
+// all pairs would need memory quadratic in the length of the lists.
+func compareChildren(from, to *value) diff.EqualFunc {
+	type pair struct{ i, j int }
+	results := make(map[pair]diff.Result)
 
 	return func(i, j int) diff.Result {
-		if !done[i][j] {
-			results[i][j] = compareNodes(from.Children[i], to.Children[j])
-			done[i][j] = true
+		p := pair{i, j}
+		result, ok := results[p]
+		if !ok {
+			result = compareNodes(from.Children[i], to.Children[j])
+			results[p] = result
 		}
-		return results[i][j]
-	}, results
+		return result
+	}
 }
 
 func compareNodes(from, to *value) diff.Result {
@@ -385,14 +383,14 @@ func (c *nodeComparer) Walk(from, to *value) {
 		}
 
 	case reflect.Slice:
-		compare, results := compareChildren(from, to)
+		compare := compareChildren(from, to)
 		es := diff.Difference(from.Len(), to.Len(), compare)
 
 		var i, j int
 		for _, e := range es {
 			switch e {
 			case diff.Identity, diff.Modified:
-				result := results[i][j]
+				result := compare(i, j)
 				c.NumDiff += result.NumDiff
 				c.NumSame += result.NumSame
 				i++
